@@ -64,3 +64,7 @@ package base
 //@   requires len(buffer) >= rwmax(rw, value, record)
 //@   modifies buffer[: rwmax(rw, value, record)], record.Unescaped
 //@   ensures  0 <= result && result <= rwmax(rw, value, record)
+
+// ---- chunks (C11) -------------------------------------------------------------------------------------------------
+// chunkrecords(c): ghost — the number of records chunk c contains
+//@ pure func chunkrecords(c *LogChunk) int
